@@ -229,9 +229,18 @@ class ScreenScheduler():
         if not top_screen.ui_screen.screen_ready:
             if not top_screen.ui_screen.setup(top_screen.args):
                 # remove the screen and skip if setup went wrong
-                self._screen_stack.pop()
-                self.redraw()
+                screen = self._screen_stack.pop()
                 log.warning("Screen %s setup wasn't successful", top_screen)
+
+                if screen.execute_new_loop:
+                    # the modal screen is gone, return to the caller of push_screen_modal()
+                    self._event_loop.close_loop()
+
+                    if self._screen_stack.empty():
+                        raise ExitMainLoop()
+                else:
+                    self.redraw()
+
                 return
 
         # get the widget tree from the screen and show it in the screen
